@@ -28,7 +28,17 @@ OPT_SECTION3 = ("# Options:\n"
                 "#   -m MODE, --mode=MODE  Mode [default: fast].\n"
                 "#   -q                    Quiet.\n"
                 "#   --depth=<n>           How deep [default: 3] (levels)\n")
-TABLES = {True: (OPTS, OPT_SECTION), "T2": (OPTS2, OPT_SECTION2), "T3": (OPTS3, OPT_SECTION3)}
+# fourth table: names with dashes (keys get underscores); fifth: a flag meant to be repeated (counted)
+OPTS4 = [(None, "dry-run", False, None), ("n", "no-act", False, None), ("d", "out-dir", True, None)]
+OPT_SECTION4 = ("# Options:\n"
+                "#   --dry-run              Do nothing.\n"
+                "#   -n, --no-act           Same.\n"
+                "#   -d DIR, --out-dir=DIR  Where.\n")
+OPTS5 = [("v", "verbose", False, None), ("q", None, False, None)]
+OPT_SECTION5 = ("# Options:\n"
+                "#   -v, --verbose  More output (repeatable).\n"
+                "#   -q             Quiet.\n")
+TABLES = {True: (OPTS, OPT_SECTION), "T2": (OPTS2, OPT_SECTION2), "T3": (OPTS3, OPT_SECTION3), "T4": (OPTS4, OPT_SECTION4), "T5": (OPTS5, OPT_SECTION5)}
 
 
 def opts_of(wo):
@@ -54,7 +64,8 @@ def show(n, top=True):
     if k == 'cmd':
         return n[1]
     if k == 'pos':
-        return '<%s>' % n[1]
+        # an upper-case name is the other documented way of writing a positional (FILE, MY-ARG)
+        return n[1] if n[1].upper() == n[1] and n[1].lower() != n[1] else '<%s>' % n[1]
     if k == 'opt':
         return n[2]
     if k == 'anyopts':
@@ -70,7 +81,7 @@ def show(n, top=True):
     if k == 'alt':
         return ' | '.join(show(c, False) for c in n[1])
     if k == 'rep':
-        return show(n[1], False) + '...'
+        return show(n[1], False) + ('...' if len(n) < 3 else ' ...')     # ('rep', p, 'spaced'): `<x> ...`
     raise ValueError(n)
 
 
@@ -244,6 +255,25 @@ def family_usages():
     sp, md, dp, q3 = o('speed', '--speed=<kn>'), o('mode', '-m MODE'), o('depth', '--depth=<n>'), o('q', '-q')
     for l in ([('seq', [('anyopts',), x])], [('seq', [opt(sp), opt(q3), x])], [('seq', [opt(md), opt(dp), ('optional', x)])], [('seq', [a, ('anyopts',)])]):
         out.append((l, "T3", av4))
+    # F5: upper-case positionals, `<x> ...` with a blank before the dots
+    F, G = ('pos', 'FILE'), ('pos', 'MY-ARG')
+    av5 = [list(t) for n in range(0, 5) for t in itertools.product(['a', 'v', 'w'], repeat=n)]
+    for l in ([('seq', [F])], [('seq', [a, F, opt(G)])], [('seq', [('rep', F)])], [('seq', [('rep', x, 'spaced')])], [('seq', [a, ('rep', ('optional', F))])],
+              [('seq', [F, ('rep', y, 'spaced')])], [('seq', [opt(('rep', G))])], [('seq', [('group', ('alt', [a, F]))])]):
+        out.append((l, False, av5))
+    # F6: names with dashes: commands, positionals, options (keys with underscores)
+    mc, ma = ('cmd', 'my-cmd'), ('pos', 'my-arg')
+    t6 = ['my-cmd', 'v', '--dry-run', '-n', '--no-act', '--out-dir=w', '-d', 'w', '-dw', 'my_cmd']
+    av6 = [list(t) for n in range(0, 4) for t in itertools.product(t6, repeat=n)]
+    dr, na, od = o('dry-run', '--dry-run'), o('no-act', '-n'), o('out-dir', '--out-dir=DIR')
+    for l in ([('seq', [mc, ma])], [('seq', [opt(mc), ('rep', ma)])], [('seq', [mc, opt(dr), ma])], [('seq', [('anyopts',), opt(ma)])], [('seq', [mc, opt(na), opt(od)])]):
+        out.append((l, "T4", av6))
+    # F7: a flag that may be repeated: the result is how many times it was given
+    vb = o('verbose', '-v')
+    t7 = ['-v', '-vv', '--verbose', '-q', 'a', '-vq', '-vvv']
+    av7 = [list(t) for n in range(0, 4) for t in itertools.product(t7, repeat=n)]
+    for l in ([('seq', [('rep', opt(vb))])], [('seq', [opt(('rep', vb))])], [('seq', [('rep', vb)])], [('seq', [('rep', opt(vb)), a])], [('seq', [opt(('rep', vb)), opt(qf2 := o('q', '-q')), opt(a)])]):
+        out.append((l, "T5", av7))
     return out
 
 
@@ -279,10 +309,8 @@ def canon_ref(binds):
         else:
             n = key_of(unhx(b[1]).decode())
             v = None if b[2] == 'none' else unhx(b[2]).decode()
-            if v is None:
-                op[n] = [None]
-            else:
-                op.setdefault(n, []).append(v)
+            # a flag given k times is k None's (a repeatable flag is a count)
+            op.setdefault(n, []).append(v)
     return (tuple(sorted(cm.items())), tuple(sorted((k, tuple(v)) for k, v in po.items())),
             tuple(sorted((k, tuple(v)) for k, v in op.items())))
 
@@ -295,9 +323,12 @@ def canon_impl(js, opts, cmds):
     for k, v in js.items():
         if k == "options" and isinstance(v, dict):
             for ok, ov in v.items():
-                if isinstance(ov, bool) or isinstance(ov, int):
+                if isinstance(ov, bool):
                     if ov:
-                        op[ok] = (None,)        # flags are compared as given / not given
+                        op[ok] = (None,)
+                elif isinstance(ov, int):
+                    if ov:
+                        op[ok] = (None,) * ov   # a counted flag: given that many times
                 elif ov is None:
                     pass
                 elif isinstance(ov, list):
